@@ -163,6 +163,7 @@ func (o *Overlay) TransmitMsg(onetMsg *ProtocolMsg, io MessageProxy) error {
 	pi, ok := o.protocolInstances[onetMsg.To.ID()]
 	done := o.instancesInfo[onetMsg.To.ID()]
 	o.instancesLock.Unlock()
+	verifAt("overlay.instanceLooked", o, onetMsg)
 	if done {
 		log.Lvl5("Message for TreeNodeInstance that is already finished")
 		// the lookup above cancelled a pending removal of the tree:
